@@ -2,7 +2,7 @@ SPECIFICATION Spec
 CONSTANTS
   P = 7
   MaxN = 3
-  MaxT = 3
+  MaxT = 2
   IdVals = {1, 2, 4, 6}
   IdOrder = "asc"
   IdSeqs <- MC_IdSeqs
